@@ -643,4 +643,180 @@ Proof.
            apply arg_inert. rewrite Forall_forall in Hargs. pose proof (Hargs xa Hxa) as Hal. rewrite forallb_forall in Hal. now apply Hal.
         -- rewrite map_length. pose proof (max_arg_len_ge al xa Hxa). lia.
 Qed.
+
+Lemma S_src d items :
+  Forall wf_src items -> List.length (snames stb) <= S d ->
+  exists n m, forall f, m <= f -> forall ys r, expandS stb f ys = Ok r ->
+    expandS stb (n + f) (map hl0 (flat_map stoks items) ++ ys) = Ok (flat_map (sitem_out d) items ++ r).
+Proof.
+  intros Hwfi Hlen. induction Hwfi as [|i items Hi Hitems IH].
+  - exists 0, 0. intros f _ ys r Hr. exact Hr.
+  - destruct IH as (n2 & m2 & H2). destruct (S_item d i Hi Hlen) as (n1 & m1 & H1).
+    exists (n1 + n2), (m1 + m2). intros f Hf ys r Hr. cbn [flat_map]. rewrite map_app, <- !app_assoc.
+    rewrite <- Nat.add_assoc. apply H1; [lia|]. apply H2; [lia|assumption].
+Qed.
+
+(* ---------- the two outputs have the same spellings ---------- *)
+Lemma EI_plain d ne l : forallb (src_tok fs) l = true -> EI tb d ne l = flat_map (E tb d ne) l.
+Proof.
+  induction l as [|t r IH]; intros H; [reflexivity|]. cbn [forallb] in H. apply andb_true_iff in H. destruct H as [Ht Hr].
+  unfold src_tok in Ht. rewrite andb_true_iff, negb_true_iff in Ht. destruct Ht as [_ Hd].
+  cbn [EI flat_map]. unfold is_def in Hd. rewrite Hd. now rewrite IH.
+Qed.
+
+Lemma sim_hl0 l : Forall2 (sim []) l (map hl0 l).
+Proof. induction l as [|t r IH]; cbn; constructor; [repeat split|assumption]. Qed.
+
+Lemma sim_hsadd name l hl : Forall2 (sim []) l hl -> Forall2 (sim [name]) l (hsadd [name] hl).
+Proof.
+  intros H. induction H as [|t h l hl (H1 & H2 & H3) Hr IH]; cbn; constructor; [|assumption].
+  repeat split; cbn; try assumption. now rewrite H3.
+Qed.
+
+Lemma index_of_none_mem s l : forall k, mem s l = false -> index_of s l k = None.
+Proof.
+  induction l as [|a r IH]; intros k; cbn [index_of]; [reflexivity|]. unfold mem. cbn [existsb].
+  rewrite orb_false_iff. intros [H1 H2]. rewrite String.eqb_sym, H1. now apply IH.
+Qed.
+
+Definition same_tok (x y : tok) : Prop := tk x = tk y /\ tt x = tt y.
+
+Lemma sim_sm name ps al b b' :
+  Forall2 same_tok b' b -> List.length al = List.length ps ->
+  (forall t, In t b -> (is_id t || negb (mem (tt t) ps)) = true) ->
+  Forall2 (sim [name]) (sm ps al b') (hsadd [name] (subst_out (combine ps (map (map hl0) al)) (map btok_of b))).
+Proof.
+  intros Hsame Hlen Hpar. induction Hsame as [|x' x b' b (Hk & Ht) Hr IH]; [constructor|].
+  cbn [sm flat_map map subst_out]. fold (sm ps al b').
+  assert (Hpar' : forall t, In t b -> (is_id t || negb (mem (tt t) ps)) = true) by (intros; apply Hpar; now right).
+  specialize (IH Hpar'). specialize (Hpar x (or_introl eq_refl)).
+  unfold Spec.C03.param. cbn [btok_of bk bt]. change (tkind_eqb (tk x) KId) with (is_id x). rewrite Ht.
+  destruct (is_id x) eqn:Hid.
+  - destruct (index_of (tt x) ps 0) as [i|] eqn:Hi.
+    + rewrite (sel_combine_index ps (map (map hl0) al) (tt x) 0 i Hi) by (now rewrite map_length).
+      rewrite Nat.sub_0_r. unfold hsadd. rewrite map_app. fold (hsadd [name]). apply Forall2_app; [|exact IH].
+      change (nth i (map (map hl0) al) []) with (nth i (map (map hl0) al) (map hl0 [])). rewrite map_nth.
+      apply sim_hsadd. apply sim_set_w. apply sim_hl0.
+    + rewrite (sel_combine_none ps _ (tt x) 0 Hi). cbn [app hsadd map]. constructor; [|exact IH].
+      repeat split; cbn; auto.
+  - cbn in Hpar. apply negb_true_iff in Hpar. rewrite (index_of_none_mem _ _ 0 Hpar).
+    cbn [app hsadd map]. constructor; [|exact IH]. repeat split; cbn; auto.
+Qed.
+
+Lemma same_set_w w b : Forall2 same_tok (set_w_hd w b) b.
+Proof.
+  destruct b as [|t r]; cbn; constructor; [split; reflexivity|].
+  induction r; constructor; [split; reflexivity|assumption].
+Qed.
+
+Lemma item_corr lead cat_fix str_white resub_fix va_fix d i :
+  wf_src i ->
+  map sp (item_out lead cat_fix str_white resub_fix va_fix tb d [None] i) = map sph (sitem_out d i).
+Proof.
+  intros [Hokd Hi]. destruct i as [l|t lp a more rp]; cbn [item_out sitem_out].
+  - rewrite EI_plain by assumption.
+    apply (corr2 (S d) [None] []); [intros s; reflexivity| |apply sim_hl0].
+    apply (forallb_impl (src_tok fs) (okt2 tb)); [|assumption].
+    intros x Hx. unfold src_tok in Hx. apply andb_true_iff in Hx. destruct Hx as [Hf _]. now apply okf_okt2.
+  - destruct Hi as (Hid & Hdef & Hlp & Hrp & Ha & Hmore & n0 & ps & b & Hfl & Hlps).
+    destruct (fun_facts n0 ps b (flookup_In _ _ _ Hfl)) as (Hb & Hps & Hnd & Hva & Hno & Hpar & Hne).
+    pose proof (flookup_name _ _ _ Hfl) as Hname. cbn [fname] in Hname. subst n0.
+    assert (Hargs : Forall (fun x => forallb (arg_tok fs) x = true) (a :: map snd more)).
+    { constructor; [assumption|]. rewrite Forall_forall in Hmore |- *. intros x Hxin. apply in_map_iff in Hxin.
+      destruct Hxin as (ca & <- & Hca). now apply Hmore. }
+    assert (Hlen : List.length (a :: map snd more) = List.length ps) by (cbn [List.length]; now rewrite map_length).
+    unfold call_out. rewrite get_mtable2, Hfl. cbn [option_map macro_of_fdef].
+    rewrite replace_fun_fmacro; try assumption.
+    2:{ intros x Hxin. rewrite Forall_forall in Hargs. apply E_inert_list; [now apply Hargs|reflexivity]. }
+    cbn [fmacro m_name].
+    apply (corr2 d [Some (tt t); None] [tt t]).
+    + intros s. cbn [in_noexp existsb]. unfold mem. cbn [existsb]. now rewrite String.eqb_sym.
+    + apply okt2_set_w_hd. apply sm_okt2.
+      * apply okt2_set_w_hd. apply (forallb_impl (okf fs) (okt2 tb)); [apply okf_okt2|assumption].
+      * rewrite Forall_forall in Hargs |- *. intros x Hxin. apply (forallb_impl (arg_tok fs) (okt2 tb)); [apply arg_okt2|now apply Hargs].
+    + apply sim_set_w. apply sim_sm; [apply same_set_w|assumption|assumption].
+Qed.
+
+(* ---------- the table is one S accepts ---------- *)
+Lemma no_va b : forallb okd b = true -> existsb (b_is KId "__VA_ARGS__") (map btok_of b) = false.
+Proof.
+  intros Hb. apply not_true_is_false. intros He. apply existsb_exists in He.
+  destruct He as (x & Hx & He). apply in_map_iff in Hx. destruct Hx as (t & <- & Ht).
+  rewrite forallb_forall in Hb. specialize (Hb t Ht). unfold okd in Hb. rewrite !andb_true_iff, negb_true_iff in Hb.
+  destruct Hb as [_ Hv]. unfold b_is in He. cbn [btok_of bk bt] in He. unfold is_id in Hv. congruence.
+Qed.
+Lemma hash_ok_none ps (b : list btok) : (forall t, In t b -> String.eqb (bt t) "#" = false) -> hash_ok ps b = true.
+Proof.
+  induction b as [|t r IH]; intros H; [reflexivity|]. cbn [hash_ok].
+  replace (b_is KOp "#" t) with false by (unfold b_is; rewrite (H t (or_introl eq_refl)); now rewrite andb_false_r).
+  apply IH. intros x Hx. apply H. now right.
+Qed.
+
+Lemma okf_okd_all b : forallb (okf fs) b = true -> forallb okd b = true.
+Proof. apply forallb_impl. intros x Hx. unfold okf in Hx. apply andb_true_iff in Hx. tauto. Qed.
+
+Lemma table_ok2 : table_ok stb = true.
+Proof.
+  unfold table_ok. apply andb_true_iff. split.
+  - unfold stable2. rewrite map_map. cbn [fst]. unfold wf_fdefs in Hwf. apply andb_true_iff in Hwf. tauto.
+  - rewrite forallb_forall. intros e He. unfold stable2 in He. apply in_map_iff in He.
+    destruct He as (f & <- & Hf). cbn [fst snd].
+    pose proof (Hwf_each f Hf) as Hw. unfold wf_fdef in Hw. rewrite !andb_true_iff in Hw. destruct Hw as [[Hn Hb] Hk].
+    pose proof (okf_okd_all _ Hb) as Hbd.
+    assert (Hokb : forallb okb (map btok_of (fbody f)) = true).
+    { rewrite forallb_forall. intros x Hx. apply in_map_iff in Hx. destruct Hx as (t & <- & Ht).
+      apply okd_okb. rewrite forallb_forall in Hbd. now apply Hbd. }
+    destruct (no_cat_facts _ Hokb) as (H1 & H2 & H3 & H4).
+    destruct f as [n b|n ps b]; cbn [fname fbody smacro_of_fdef body_of] in *.
+    + rewrite Hn, H1, H2, H3, H4, (no_va b Hbd). reflexivity.
+    + rewrite !andb_true_iff, !negb_true_iff in Hk. destruct Hk as [[[[Hl Hnd] Hva] Hh] Hp].
+      rewrite Hn, H1, H2, H3, H4, Hnd, Hva, (no_va b Hbd). cbn [negb andb orb].
+      apply hash_ok_none. intros x Hx. apply in_map_iff in Hx. destruct Hx as (t & <- & Ht). cbn [btok_of bt].
+      rewrite forallb_forall in Hh. specialize (Hh t Ht). now apply negb_true_iff in Hh.
+Qed.
+
+Lemma outs_corr lead cat_fix str_white resub_fix va_fix d items :
+  Forall wf_src items ->
+  map sp (flat_map (item_out lead cat_fix str_white resub_fix va_fix tb d [None]) items)
+  = map sph (flat_map (sitem_out d) items).
+Proof.
+  intros H. induction H as [|i items Hi Hr IH]; [reflexivity|]. cbn [flat_map]. rewrite !map_app, IH.
+  now rewrite (item_corr lead cat_fix str_white resub_fix va_fix d i Hi).
+Qed.
+
+(* ---------- main theorem ---------- *)
+Theorem funlike_main (lead cat_fix str_white resub_fix va_fix va_whole : bool) (max_level : nat) (items : list sitem) :
+  Forall wf_src items -> fs <> [] ->
+  S (S (List.length fs)) < max_level ->
+  exists n, forall fuel, n <= fuel ->
+    exists out,
+      expand lead cat_fix str_white resub_fix None false va_fix va_whole max_level tb fuel (flat_map stoks items) = Ok out /\
+      run_spec fuel stb (map btok_of (flat_map stoks items)) = Ok (map sp out).
+Proof.
+  intros Hitems Hne Hlev.
+  assert (Hnames : List.length (names tb) = List.length fs) by (unfold names, mtable2; now rewrite !map_length).
+  assert (Hsnames : List.length (snames stb) = List.length fs) by (unfold snames, stable2; now rewrite !map_length).
+  assert (Hpos : List.length fs <> 0) by (destruct fs; [contradiction|discriminate]).
+  set (d := Nat.pred (List.length fs)).
+  destruct (expand_src lead cat_fix str_white resub_fix va_fix va_whole max_level tb Hobj2 items) as (n1 & H1).
+  { rewrite Hnames. rewrite Forall_forall in Hitems |- *. intros i Hi. now apply wf_src_sitem, Hitems. }
+  { now rewrite Hnames. }
+  { now rewrite Hnames. }
+  destruct (S_src d items Hitems) as (n2 & m2 & H2).
+  { rewrite Hsnames. unfold d. lia. }
+  exists (n1 + n2 + m2 + 1). intros fuel Hf. eexists. split; [apply H1; lia|].
+  unfold run_spec. rewrite table_ok2. cbn [negb].
+  assert (Hokb : forallb okb (map btok_of (flat_map stoks items)) = true).
+  { rewrite forallb_forall. intros x Hx. apply in_map_iff in Hx. destruct Hx as (t & <- & Ht).
+    apply in_flat_map in Ht. destruct Ht as (i & Hi & Ht). rewrite Forall_forall in Hitems.
+    destruct (Hitems i Hi) as [Hokd _]. apply okd_okb. rewrite forallb_forall in Hokd. now apply Hokd. }
+  rewrite sdefined_plain by assumption.
+  rewrite map_map. change (fun x => lift [] (btok_of x)) with hl0.
+  replace fuel with (n2 + (fuel - n2)) by lia.
+  rewrite <- (app_nil_r (map hl0 (flat_map stoks items))).
+  rewrite (H2 (fuel - n2)) with (r := []); [| lia |].
+  2:{ destruct (fuel - n2) eqn:E; [lia|reflexivity]. }
+  rewrite app_nil_r. f_equal. rewrite Hnames. fold d.
+  rewrite (outs_corr lead cat_fix str_white resub_fix va_fix d items Hitems). reflexivity.
+Qed.
 End FunLike.
